@@ -3,9 +3,11 @@ from contracts import c20
 
 LEVEL = "other"
 TRUSTED = ["string primitives (lstrip/startswith/split/float/int) are abstract in the proof part"]
-ASSUMPTIONS = ["A3 strings abstract: the block-structure proof treats 'is a header line' as an uninterpreted predicate"]
+ASSUMPTIONS = ["A3 strings abstract: 'is a header line', 'is a #S line', 'is blank', the token lists and the int / float literal tests and values of a line are uninterpreted functions of the line index, related only by the string facts listed in the unit"]
 EXPLANATION = ("Proved (PyVC, unbounded): read_graphs splits any file into blocks that partition the suffix starting at the first header line (block structure, order, contiguity, "
-               "header prefix, maximality). Bounded: faithful content (edges, weights, id, constraints, n/m/w) and rejection of malformed lines are checked by printing "
+               "header prefix, maximality); read_graph, at token level (lines opaque, 5 loops cut at invariants): the count line is the first non-blank line after the header lines, id = text of the first non-#S header line, "
+               "constraints = consecutive node pairs of each distinct #S line with >= 2 nodes (first occurrence, file order), every well-formed edge line puts its edge into the graph with the weight of its last line and nothing else is in the graph, "
+               "constraint edges are validated, n/m/w are the returned graph's own values, ValueError exactly at the three documented sites, a zero-vertex block gives an edge-less graph. Bounded: faithful content down to characters (edges, weights, id, constraints, n/m/w) and rejection of malformed lines are checked by printing "
                "generated specs and single-line corruptions (rc/p_C20.py).")
 
 
@@ -25,9 +27,10 @@ def bounded(tier, seed):
 
 MANIFEST = dict(
     category="other",
-    text="Contract-based proof of the block-splitting structure of read_graphs on the real source (4 nested loops cut at invariants over an abstract header predicate), "
+    text="Contract-based proofs on the real source: the block-splitting structure of read_graphs (4 nested loops cut at invariants over an abstract header predicate) and the token-level meaning of read_graph "
+         "(id, constraints with duplicate filtering, edges with last-line weights, validation, ValueError sites; lines opaque), "
          "plus a bounded stand-in: print/parse round trip over generated specs and a corruption catalogue.",
     design_ref="DESIGN.md section 3 / C20",
-    note="String-level parsing of a block (read_graph) is not under unbounded contract; it is covered by the bounded printer oracle. Trusted: CPython string methods, networkx.",
-    technique="contract-based deductive verification of the block splitter (PyVC) + bounded printer-oracle round trip",
+    note="Character-level behaviour of the string primitives (what counts as blank, as a token, as a numeric literal) is outside the contracts and covered only by the bounded printer oracle. Trusted: CPython string methods, networkx, stDiGraph.get_width (C09).",
+    technique="contract-based deductive verification of the block splitter and the block parser at token level (PyVC) + bounded printer-oracle round trip",
     engine="pyvc+rc")
